@@ -142,6 +142,10 @@ def analyse_vector(sim: bioc.BioSim, r0: List[int], cache: Dict[Tuple, List]) ->
                              f"fresh search on {r1} at step {diff}: "
                              f"{last[diff] if diff < len(last) else 'end'} vs "
                              f"{cache[tuple(r1)][diff] if diff < len(cache[tuple(r1)]) else 'end'}"))
+    # L1 with two accepted moves in different sweeps - explored only when the search compares cost-dependent values with
+    # each other (a relative stopping rule ...): whatever such a comparison answers, a sweep in which an element moved
+    # must be followed by another full sweep
+    problems.extend(_relative_exits(sim, r0, base, tag))
     # L4 coverage
     for e_ in range(n):
         b = r0[e_]
@@ -160,6 +164,61 @@ def analyse_vector(sim: bioc.BioSim, r0: List[int], cache: Dict[Tuple, List]) ->
             problems.append(("L4", "coverage-add", f"{tag}: element {e_} (bucket {b}, alone={alone}): new-bucket positions "
                                                    f"examined {sorted(seen[e_]['add'])}, effective positions are {sorted(want_add)}"))
     return problems
+
+
+def _relative_exits(sim: bioc.BioSim, r0: List[int], base, tag: str) -> List[Tuple[str, str, str]]:
+    n = len(r0)
+    out: List[Tuple[str, str, str]] = []
+    probe = None
+    budget = 24
+    for i in range(base.n_cmp):
+        t1 = sim.simulate(r0, i)
+        if t1.halted or t1.index_error:
+            continue
+        moves = [e for e in t1.events if e["kind"] == "move"]
+        if len(moves) != 1:
+            continue
+        k_move = t1.events.index(moves[0])
+        # acceptance tests of the sweep after the one in which the move happened
+        later = t1.events[k_move + 1:]
+        starts = [k for k, x in enumerate(later) if x["kind"] == "delta" and x["elem"] == 0]
+        if not starts:
+            continue
+        cands = [x["idx"] for x in later[starts[0]:] if x["kind"] == "cmp"]
+        for j in cands[:3]:
+            for choice in (True, False):
+                if budget <= 0:
+                    return out
+                budget -= 1
+                t2 = sim.simulate(r0, (i, j), free_choice=choice)
+                if probe is None:
+                    probe = bool(t2.free) or bool(t1.free)
+                    if not probe and not t2.free:
+                        # no comparison between cost-dependent values anywhere: nothing more to explore
+                        pass
+                if not t2.free:
+                    continue
+                if t2.halted:
+                    out.append(("L1", "termination", f"{tag}: accepting tests #{i} and #{j}: search does not stop"))
+                    return out
+                mv = [e for e in t2.events if e["kind"] == "move"]
+                if len(mv) != 2:
+                    continue
+                rest = t2.events[t2.events.index(mv[-1]) + 1:]
+                rest_deltas = [x["elem"] for x in rest if x["kind"] == "delta"]
+                want_rest = list(range(mv[-1]["elem"] + 1, n)) + list(range(n))
+                if rest_deltas != want_rest:
+                    fr = t2.free[-1]
+                    out.append(("L1", "relative-exit",
+                                f"{tag}: with a first move of element {mv[0]['elem']} and, in a later sweep, a move of element "
+                                f"{mv[1]['elem']}, the comparison at line {fr['line']} (a combination {fr['coef']} of the two "
+                                f"gains, which holds or not depending on their magnitudes) answering {fr['outcome']} ends the "
+                                f"search after visiting {rest_deltas}: a sweep in which an element moved must be followed by "
+                                f"a full sweep {want_rest}, otherwise the returned ranking may still be improvable"))
+                    return out
+        if probe is False:
+            return out
+    return out
 
 
 def _worker(args):
@@ -212,7 +271,7 @@ def local_search_problems(proj: Project, thorough: bool):
 
 
 RULES = {
-    "L1": ("fix-point protocol of the sweep (stop only after a full pass without move)", ["termination", "sweep", "move-applied", "resweep"]),
+    "L1": ("fix-point protocol of the sweep (stop only after a full pass without move)", ["termination", "sweep", "move-applied", "resweep", "relative-exit"]),
     "L2": ("both neighbourhoods searched for every element", ["both-neighbourhoods"]),
     "L3": ("acceptance thresholds are `delta < c`, -0.001 <= c < 0", ["threshold"]),
     "L4": ("every other bucket and every effective new-bucket position is examined", ["target-range", "coverage-change", "coverage-add"]),
